@@ -2072,6 +2072,10 @@ func (e *Extractor) extractPreserveLayout(fragments []text.TextFragment, pageWid
 		defaultCharsPerLine = 80  // Default width in characters
 		minCharsPerLine     = 40  // Minimum width
 		maxCharsPerLine     = 200 // Maximum width
+		// Text positioned far outside the page must not translate into
+		// unbounded padding: columns and blank lines are capped.
+		maxLayoutColumn = 10 * maxCharsPerLine
+		maxBlankLines   = 1000
 	)
 
 	// Calculate character width based on page width and desired output width
@@ -2181,9 +2185,11 @@ func (e *Extractor) extractPreserveLayout(fragments []text.TextFragment, pageWid
 			}
 
 			// How many line heights is the gap?
-			gapInLines := int(verticalGap/lineHeight + 0.5)
-			if gapInLines < 1 {
-				gapInLines = 1
+			gapInLines := 1
+			if gap := verticalGap/lineHeight + 0.5; gap > maxBlankLines {
+				gapInLines = maxBlankLines
+			} else if gap >= 1 {
+				gapInLines = int(gap)
 			}
 
 			// Add newlines (1 for normal line break, more for vertical gaps)
@@ -2200,9 +2206,11 @@ func (e *Extractor) extractPreserveLayout(fragments []text.TextFragment, pageWid
 
 		for _, frag := range ln.fragments {
 			// Calculate target column position
-			targetCol := int(frag.X / charWidth)
-			if targetCol < 0 {
-				targetCol = 0
+			targetCol := 0
+			if col := frag.X / charWidth; col > maxLayoutColumn {
+				targetCol = maxLayoutColumn
+			} else if col > 0 {
+				targetCol = int(col)
 			}
 
 			// Add spaces to reach target column
